@@ -92,17 +92,17 @@ pub fn components(o: &mut Out, r: &mut Rng, tx: &Transaction, mutants: usize) {
 
 pub fn run(o: &mut Out, tier: &str, seed: u64) {
     let mut r = Rng::new(seed);
-    let (n_tx, n_mut, n_blocks) = if tier == "thorough" { (4000, 30, 600) } else { (500, 14, 80) };
+    let (n_tx, n_mut, n_blocks) = if tier == "thorough" { (2500, 24, 400) } else { (500, 14, 80) };
     for it in 0..n_tx {
         let tx = gen::tx(&mut r); let b = serialize(&tx);
         o.stat(&format!("gen.v{}.rct{}", tx.prefix.version.0, tx.rct_signatures.sig.as_ref().map(|s| gen::rct_num(s.rct_type) as i32).unwrap_or(-1)));
         dec_case(o, "tx", &b, "valid");
-        for _ in 0..n_mut { let m = gen::mutate(&mut r, &b); dec_case(o, "tx", &m, "mutated"); }
+        for _ in 0..(if b.len() > 4000 { 4 } else { n_mut }) { let m = gen::mutate(&mut r, &b); dec_case(o, "tx", &m, "mutated"); }
         if it % 4 == 0 { components(o, &mut r, &tx, 3); }
         // exhaustive tag sweep: all 256 values at each of the first structural byte positions of some transactions
-        if it % 50 == 0 { for pos in 0..b.len().min(if tier == "thorough" { 80 } else { 12 }) { for v in 0..=255u8 { let mut m = b.clone(); m[pos] = v; dec_case(o, "tx", &m, "tagsweep"); } } }
+        if it % 50 == 0 && b.len() < 3000 { for pos in 0..b.len().min(if tier == "thorough" { 48 } else { 12 }) { for v in 0..=255u8 { let mut m = b.clone(); m[pos] = v; dec_case(o, "tx", &m, "tagsweep"); } } }
         // truncation at every byte position
-        if it % 25 == 0 && b.len() < 6000 { for k in 0..b.len() { dec_case(o, "tx", &b[..k], "truncated"); } }
+        if it % 25 == 0 && b.len() < 2500 { for k in 0..b.len() { dec_case(o, "tx", &b[..k], "truncated"); } }
     }
     for it in 0..n_blocks {
         let n = if it % 7 == 0 { r.range(0, 70) as usize } else { r.below(6) as usize };
